@@ -139,6 +139,7 @@ class Built:
         base = entry.split(".")[0]
         att_pol = dict(on_attempt_start=a_pol_s, on_attempt_end=a_pol_e)
         if entry == NORETRY:
+            env.res_enabled = False
             self.target = P(retry=None, circuit_breaker=self.breaker)
         elif entry.endswith("from_config"):
             rc = RetryConfig(
